@@ -1070,7 +1070,198 @@ func c08ReplayReal(part string, raw json.RawMessage) (bool, bool, string) {
 }
 
 func TestVerifC08Real(t *testing.T) {
-	evidence.Main(t, "C08", evidence.Seq{Run: func(sh *evidence.Shard) { c08Real(sh); c08NotePriv(sh) }, Replay: c08ReplayReal})
+	evidence.Main(t, "C08", evidence.Seq{Run: func(sh *evidence.Shard) { c08Real(sh); c08Long(sh); c08NotePriv(sh) }, Replay: func(part string, raw json.RawMessage) (bool, bool, string) {
+		if part == "long-destinations" {
+			return c08ReplayLong(part, raw)
+		}
+		return c08ReplayReal(part, raw)
+	}})
+}
+
+// ---------------------------------------------------------------------------------------------
+// LENGTH of the destination strings (same unit: real capacity). The policy is a predicate on the
+// exact destination string, whatever its length; every other part uses strings of at most ~20
+// bytes. Here one session names two destinations A and B that share a common prefix of L bytes
+// and differ only behind it (in the tail of the name, in the port only, or B is A plus one more
+// byte), under every policy on (A, B), in every order, with a short allowed destination s as a
+// possible opener, hook off/on - judged by the same per-datagram oracle (c08World.datagram).
+// Added after the independently seeded change C08-9 (decision cache keyed by a fixed [128]byte
+// array filled by copy(): destinations equal in their first 128 bytes shared one cached verdict).
+
+// c08LongLens: shared-prefix lengths around the powers of two a fixed-size key/buffer would
+// have (quick); every length 3..300 and more boundaries in the thorough tier.
+func c08LongLens(thorough bool) []int {
+	if !thorough {
+		return []int{64, 127, 128, 129, 255, 256, 1024}
+	}
+	var ls []int
+	for l := 3; l <= 300; l++ {
+		ls = append(ls, l)
+	}
+	return append(ls, 511, 512, 513, 1023, 1024, 1025, 2000)
+}
+
+// c08LongTails: how A and B differ behind the shared prefix; pre/a/b are chosen so that the
+// longest common prefix of A = host+pre+a and B = host+pre+b is exactly L bytes (host has
+// L-len(pre) bytes, a and b differ in their first byte or a is empty).
+var c08LongTails = []struct {
+	name      string
+	pre, a, b string
+}{
+	{"name-tail", ".", "allowed.example:53", "blocked.example:53"},
+	{"port-only", ":", "53", "80"},
+	{"B=A+one-byte", ":5", "", "3"},
+}
+
+// c08LongPrefix: l bytes of host name, labels of 63 letters separated by dots (never ending in a dot).
+func c08LongPrefix(l int) string {
+	b := make([]byte, l)
+	for i := range b {
+		if i%64 == 63 && i != l-1 {
+			b[i] = '.'
+		} else {
+			b[i] = byte('a' + (i/64)%26)
+		}
+	}
+	return string(b)
+}
+
+const c08LongSeqLen = 3
+
+type c08LongCase struct {
+	PrefixLen int    `json:"shared_prefix_len"`
+	Tail      string `json:"tail"`
+	Policy    int    `json:"policy"` // bit 0: A allowed, bit 1: B allowed (s and h always allowed)
+	Hook      bool   `json:"hook"`
+	Seq       []int  `json:"seq"` // 0 = s (short, allowed), 1 = A, 2 = B
+}
+
+func (c *c08LongCase) String() string {
+	var sb strings.Builder
+	for _, x := range c.Seq {
+		sb.WriteByte("sAB"[x])
+	}
+	return fmt.Sprintf("prefix=%d,tail=%s,allowA=%v,allowB=%v,hook=%v,seq=%s", c.PrefixLen, c.Tail, c.Policy&1 != 0, c.Policy&2 != 0, c.Hook, sb.String())
+}
+
+func c08RunLong(c *c08LongCase) (verr error, where string) {
+	ta, tb, found := "", "", false
+	for _, t := range c08LongTails {
+		if t.name == c.Tail && c.PrefixLen > len(t.pre) {
+			host := c08LongPrefix(c.PrefixLen - len(t.pre))
+			ta, tb, found = host+t.pre+t.a, host+t.pre+t.b, true
+		}
+	}
+	if !found {
+		return c08Bad("unknown-case", "%s", c), ""
+	}
+	sym := []string{c08Dests[0], ta, tb}
+	allow := func(a string) bool {
+		switch a {
+		case sym[0], c08HookAddr:
+			return true
+		case sym[1]:
+			return c.Policy&1 != 0
+		case sym[2]:
+			return c.Policy&2 != 0
+		}
+		return false
+	}
+	var hook func(string) (string, bool)
+	if c.Hook {
+		hook = func(string) (string, bool) { return c08HookAddr, true }
+	}
+	w := c08NewWorld(allow, hook, append(append([]string{}, sym...), c08HookAddr))
+	defer w.teardown()
+	for i, x := range c.Seq {
+		if x < 0 || x >= len(sym) {
+			return c08Bad("unknown-case", "%s", c), ""
+		}
+		if err := w.datagram(sym[x], -1); err != nil {
+			return err, fmt.Sprintf("datagram #%d of %s (A, B = %d, %d bytes)", i+1, c, len(sym[1]), len(sym[2]))
+		}
+	}
+	return nil, ""
+}
+
+func c08Long(sh *evidence.Shard) {
+	env := sh.Env()
+	p := sh.Part("long-destinations", "enum")
+	lens := c08LongLens(env.Thorough())
+	var tails []string
+	for _, t := range c08LongTails {
+		tails = append(tails, fmt.Sprintf("%s: A = host+%q, B = host+%q", t.name, t.pre+t.a, t.pre+t.b))
+	}
+	p.Alphabet = map[string]any{
+		"destination_string_length": "the longest common prefix of A and B is exactly L bytes (a host name of 63-letter labels); they differ only behind it",
+		"shared_prefix_len_L":       lens,
+		"tails":                     tails,
+		"policies":                  "every allow/deny predicate on (A, B) (4); the short destination s and the hook address are allowed",
+		"sequence":                  fmt.Sprintf("every sequence of %d datagrams over {s = %s, A, B} in one session (both orders of A and B, each of them or s as the opener), one simulated reply after every datagram", c08LongSeqLen, c08Dests[0]),
+		"hook":                      []string{"off", "rewrites the first destination to h"},
+		"maxSessionACLCache":        maxSessionACLCache,
+	}
+	p.Bounds = map[string]any{"sequence_len": c08LongSeqLen, "max_shared_prefix_len": lens[len(lens)-1]}
+	nSeq := 1
+	for i := 0; i < c08LongSeqLen; i++ {
+		nSeq *= 3
+	}
+	var item int64
+	reported := 0
+	for _, l := range lens {
+		for _, t := range c08LongTails {
+			for pol := 0; pol < 4; pol++ {
+				for _, hk := range []bool{false, true} {
+					for s := 0; s < nSeq; s++ {
+						item++
+						if !env.Mine(item) {
+							continue
+						}
+						c := &c08LongCase{PrefixLen: l, Tail: t.name, Policy: pol, Hook: hk}
+						for k, r := 0, s; k < c08LongSeqLen; k, r = k+1, r/3 {
+							c.Seq = append(c.Seq, r%3)
+						}
+						p.Evaluations++
+						var verr error
+						var where string
+						if val, stack := evidence.Catch(func() { verr, where = c08RunLong(c) }); val != nil {
+							verr = c08Bad("panic", "%v at %s", val, evidence.PanicSite(stack))
+						}
+						p.Count("datagrams", int64(len(c.Seq)))
+						p.Class(l, t.name, pol, hk, verr == nil)
+						if p.Evaluations%307 == 5 {
+							p.Sample(c)
+						}
+						if verr != nil {
+							clause := "error"
+							var ce *c08Err
+							if errors.As(verr, &ce) {
+								clause = ce.Clause
+							}
+							sh.Violate(p.Name, fmt.Sprintf("long-destinations/%s/%s", clause, c), fmt.Sprintf("%v [%s]", verr, where), c)
+							if reported++; reported >= 4 {
+								p.Exhaustive = false
+								p.Note("stopped after 4 reported violations in this shard (remaining cases not run)")
+								return
+							}
+						}
+					}
+				}
+			}
+		}
+	}
+}
+
+func c08ReplayLong(part string, raw json.RawMessage) (bool, bool, string) {
+	var c c08LongCase
+	if err := json.Unmarshal(raw, &c); err != nil {
+		return true, false, err.Error()
+	}
+	verr, where := c08RunLong(&c)
+	if verr != nil {
+		return true, true, fmt.Sprintf("%v [%s]", verr, where)
+	}
+	return true, false, "run completes without violation"
 }
 
 // verifCleanupAll closes every session of a manager at the end of a case. The private
@@ -1082,7 +1273,6 @@ func verifCleanupAll(m *udpSessionManager) {
 		c.cleanup(false)
 	}
 }
-
 
 // c08NotePriv records private state the harness could not locate on this tree (the oracles that
 // read it were skipped).
